@@ -91,7 +91,6 @@ theorem replaceUser_absent {sc : SChan} {ch : Chan} (h : ChanMatches sc ch) {o n
   have h3 : lower o ∉ ch.voices := fun hx => by obtain ⟨f, hf, _⟩ := (h.voices _).mp hx; exact hno f hf
   simp [Chan.replaceUser, replaceIn, ho, h1, h2, h3]
 
-set_option maxHeartbeats 400000 in
 theorem coupled_nick {s : Srv} {b : Bot} (hw : SrvWF s) (hc : Coupled s b) (n n' : Str) :
     Coupled (s.step (.nick n n')).1 (b.recvAll (s.step (.nick n n')).2) := by
   simp only [Srv.step]
